@@ -23,6 +23,27 @@ def run_pipe(res, tier, prefix, configs, schedules):
     sh.viols = [(k[len(prefix) + 1:], t, c) for (k, t, c) in keep]
     common.absorb(res, sh)
     st = common.merge_stats(sh.stats)
+    if prefix in ('C06', 'C07'):
+        # systematic leg: small file sessions, EVERY schedule with at most `bound` preemptions (stateless depth-first exploration)
+        bound, ncfg, stride, budget = (1, 32, 7, 200000) if tier == 'quick' else (2, 192, 1, 150000)
+        sh2 = common.Sharded(exe, lambda a, b: ['pipedfs', common.seed(), a * stride, a * stride + 1, bound, budget], ncfg, env=env, chunk=1,
+                             tag='pipedfs', timeout=1500, case_timeout=1450)
+        sh2.keep_prefix = '@dfs '
+        sh2.run()
+        keep2 = [(k, t, c) for (k, t, c) in sh2.viols if k.startswith(prefix + ':')]
+        if prefix == 'C07':
+            keep2 += [(prefix + ':session-does-not-complete:' + k[4:], t, c) for (k, t, c) in sh2.viols if k.startswith('C06:deadlock') or k.startswith('C06:livelock')]
+        sh2.viols = [(k[len(prefix) + 1:], t, c) for (k, t, c) in keep2]
+        common.absorb(res, sh2)
+        execs = sum(int(l.split()[2]) for l in sh2.kept)
+        trunc = sum(int(l.split()[3]) for l in sh2.kept)
+        res.extra_systematic = dict(preemption_bound=bound, configurations=len(sh2.kept), executions=execs, truncated_configurations=trunc,
+                                    max_decisions_per_execution=max([int(l.split()[4]) for l in sh2.kept] or [0]),
+                                    complete_up_to_bound=(len(sh2.kept) == ncfg and trunc == 0),
+                                    sample_configurations=[' '.join(l.split()[5:]) for l in sh2.kept[:4]])
+        if len(sh2.kept) < ncfg and not (sh2.crashes or sh2.hangs or keep2):
+            res.inconclusive.append('systematic leg: only %d of %d configurations explored' % (len(sh2.kept), ncfg))
+        st['sessions'] = st.get('sessions', 0) + execs
     res.evaluations = st.get('sessions', 0)
     res.distinct = st.get('distinct_signatures', 0)
     res.samples = st.get('samples', [])[:8]
@@ -31,6 +52,8 @@ def run_pipe(res, tier, prefix, configs, schedules):
                      scheduling_points=st.get('steps', 0), max_steps_in_a_session=st.get('max_steps', 0),
                      blocked_at=st.get('blocked_at', {}), session_kinds=st.get('kinds', {}),
                      violations_seen_for_other_properties=other)
+    if hasattr(res, 'extra_systematic'):
+        res.extra['systematic'] = res.extra_systematic
     if st.get('sessions', 0) < total and not (sh.crashes or sh.hangs or keep or other):
         res.inconclusive.append('only %d of %d sessions ran' % (st.get('sessions', 0), total))
     return st
